@@ -122,7 +122,7 @@ pub mod implementations {
         Ok(())
     }
 
-    /// `+`, `-` and `*` on two integers (of any width) must not leave the kind the operands promote to: the
+    /// `+`, `-`, `*` and `/` on two integers (of any width) must not leave the kind the operands promote to: the
     /// operators themselves panic on overflow, so the interpreter reports it as an error before applying them.
     fn integer_arithmetic_fits(op: &str, left: &Primitive, right: &Primitive) -> Result<()> {
         use Primitive::*;
@@ -142,6 +142,8 @@ pub mod implementations {
             "+" | "+=" => wide_left.checked_add(wide_right),
             "-" | "-=" => wide_left.checked_sub(wide_right),
             "*" | "*=" => wide_left.checked_mul(wide_right),
+            // a zero divisor is the operator's own error; the one quotient that leaves the kind is `MIN / -1`
+            "/" | "/=" if wide_right != 0 => wide_left.checked_div(wide_right),
             _ => return Ok(()),
         };
 
